@@ -676,7 +676,62 @@ def r9_cannot_simulate_only_for_raw_sql(ctx):
     ctx.floor('assignments to can_simulate', n, 6)
 
 
+def r10_gate_sees_removed_models(ctx):
+    """The gate accepts when Diff(simulated, target) is empty.  The diff
+    walks the *simulated* signature's apps and models and looks each one up
+    in the target; a model (or app) that the pending evolutions remove but
+    the current models still define is on the target side only and produces
+    no entry.  Unless the diff also walks the target side, or the gate asks a
+    second question, such an upgrade passes the gate and drops a live
+    model's table."""
+    ctx.rule('R-C12.10')
+    p = ctx.program
+    target_side = {}
+    for cname, attr in (('ProjectSignature', 'app_sigs'),
+                        ('AppSignature', 'model_sigs')):
+        f = p.func('signature', '%s.diff' % cname)
+        loops = [l for l in walk_no_nested(f.node, include_lambda=True)
+                 if isinstance(l, (ast.For, ast.comprehension))]
+        target_side[cname] = any(
+            is_self_attr(x, attr) for l in loops for x in ast.walk(l.iter))
+    gate = p.func(CMD, 'Command._check_simulation')
+    g = ctx.cfg(gate)
+    accepts = [n for n in g.nodes if n.kind == 'stmt' and
+               isinstance(n.ast, ast.Return) and
+               isinstance(n.ast.value, ast.Constant) and
+               n.ast.value.value is True]
+    queries = set()
+    for n in accepts:
+        for t in g.nodes:
+            if t.kind in ('test', 'operand') and g.guarded_by(n, t, 'T') or \
+                    t.kind in ('test', 'operand') and \
+                    n.id in g.reachable([t], follow_exc=False):
+                for c in ast.walk(t.ast):
+                    if isinstance(c, ast.Call):
+                        queries.add(call_name(c))
+                    if isinstance(c, ast.Name) and c.id not in ('self',):
+                        queries.add(c.id)
+    extra = queries - {'is_empty', 'diff', 'can_simulate'}
+    if all(target_side.values()):
+        ctx.ok(gate, 'the signature diff walks the target side too')
+    elif extra:
+        ctx.ok(gate, 'the gate asks more than diff.is_empty(): %s' %
+               ', '.join(sorted(extra)))
+    else:
+        blind = [c for c, v in target_side.items() if not v]
+        ctx.finding(gate, None, 'the gate accepts on diff.is_empty() alone, '
+                    'and %s.diff only walk%s the simulated signature\'s '
+                    'entries: a model or app that the queued evolutions '
+                    'remove (a stale DeleteModel / DeleteApplication / '
+                    'RenameAppLabel) while the current models still define '
+                    'it leaves no residual difference - the upgrade is '
+                    'executed and the live model loses its table' % (
+                        ' and '.join(blind), 's' if len(blind) == 1 else ''),
+                    key='gate-blind-to-removed-models')
+
+
 def run(ctx):
+    r10_gate_sees_removed_models(ctx)
     r9_cannot_simulate_only_for_raw_sql(ctx)
     r8_optimiser_keeps_invalid_mutations(ctx)
     handle, gate_nodes = r1_gate_dominates(ctx)
